@@ -394,6 +394,7 @@ func TestVerif_C11_GatherEvents(t *testing.T) {
 			uf, _ := c.GetExtension("ufrag")
 			events = append(events, "cand:"+uf.Value)
 		})
+		doubleCall := false
 		nCycles := rapid.IntRange(1, 4).Draw(rt, "cycles")
 		var ufrags []string
 		completedBeforeRestart := map[string]bool{}
@@ -403,6 +404,12 @@ func TestVerif_C11_GatherEvents(t *testing.T) {
 			ufrags = append(ufrags, u)
 			if err := w.gather(); err != nil {
 				rt.Fatalf("harness: gather: %v", err)
+			}
+			if rapid.IntRange(0, 3).Draw(rt, "secondGatherCallAtOnce") == 0 {
+				// a second call right behind the first: refused, or it supersedes a cycle that has not started yet —
+				// never two cycles for one generation
+				_ = w.gather()
+				doubleCall = true
 			}
 			if i == nCycles-1 {
 				break
@@ -451,7 +458,7 @@ func TestVerif_C11_GatherEvents(t *testing.T) {
 		mu.Lock()
 		ev := append([]string{}, events...)
 		mu.Unlock()
-		desc := fmt.Sprintf("%+v slow=%d reenter=%v cycles=%v events=%v", cfg, slow, reenter, ufrags, ev)
+		desc := fmt.Sprintf("%+v slow=%d reenter=%v doubleCall=%v cycles=%v events=%v", cfg, slow, reenter, doubleCall, ufrags, ev)
 		if maxRunning.Load() > 1 {
 			st.Fail(rt, "C11/gather/handler-overlap", "candidate handler ran %d times concurrently: %s", maxRunning.Load(), desc)
 		}
@@ -526,6 +533,108 @@ func TestVerif_C11_GatherEvents(t *testing.T) {
 		st.Record(vfHashStr(desc), midCycle, labels...)
 		if midCycle && st.WantSample() {
 			st.Sample(func() string { return desc })
+		}
+	})
+}
+
+// TestVerif_C11_ClosedDeliveredOnce: several overlapping Close / GracefulClose calls while the agent's
+// teardown is slow (a TURN allocation of the running gathering cycle is held back by the checker): the Closed
+// state reaches the application's handler exactly once, as the last state, and no closer returns before it
+// has been queued for delivery (a GracefulClose not before it has been delivered).
+func TestVerif_C11_ClosedDeliveredOnce(t *testing.T) {
+	st := vfNewStats(t)
+	rapid.Check(t, func(rt *rapid.T) {
+		nClosers := rapid.IntRange(1, 3).Draw(rt, "closers")
+		graceful := make([]bool, nClosers)
+		gap := make([]int, nClosers)
+		for i := range graceful {
+			graceful[i] = rapid.Bool().Draw(rt, "graceful")
+			gap[i] = rapid.IntRange(0, 60).Draw(rt, "gapBeforeCloser")
+		}
+		holdTeardown := rapid.Bool().Draw(rt, "teardownHeldByPendingAllocation")
+		started := rapid.Bool().Draw(rt, "agentStarted")
+		cfg := c09Config{Addrs: []string{"10.0.0.1"}, Types: []CandidateType{CandidateTypeHost, CandidateTypeRelay}, StunMode: "now", TurnProto: "udp", TurnMode: "ok"}
+		if holdTeardown {
+			cfg.TurnMode = "allocate-blocks"
+		}
+		w, err := newC09World(cfg)
+		if err != nil {
+			rt.Fatalf("harness: %v", err)
+		}
+		var (
+			mu     sync.Mutex
+			states []ConnectionState
+		)
+		_ = w.agent.OnConnectionStateChange(func(cs ConnectionState) {
+			mu.Lock()
+			states = append(states, cs)
+			mu.Unlock()
+		})
+		_ = w.agent.OnCandidate(func(Candidate) {})
+		if started {
+			if _, err := w.agent.StartAccept("peerUfragXY", "peerPasswordPeerPassword0123"); err != nil {
+				rt.Fatalf("harness: %v", err)
+			}
+		}
+		if err := w.gather(); err != nil {
+			rt.Fatalf("harness: %v", err)
+		}
+		c11Jitter(rapid.IntRange(0, 40).Draw(rt, "jitterBeforeClose"))
+		var wg sync.WaitGroup
+		returned := make([]atomic.Bool, nClosers)
+		for i := 0; i < nClosers; i++ {
+			c11Jitter(gap[i])
+			wg.Add(1)
+			go func(i int) {
+				defer wg.Done()
+				if graceful[i] {
+					_ = w.agent.GracefulClose()
+				} else {
+					_ = w.agent.Close()
+				}
+				returned[i].Store(true)
+			}(i)
+		}
+		c11Jitter(rapid.IntRange(0, 80).Draw(rt, "holdFor"))
+		w.releaseEverything()
+		doneCh := make(chan struct{})
+		go func() { wg.Wait(); close(doneCh) }()
+		select {
+		case <-doneCh:
+		case <-time.After(25 * time.Second):
+			st.Inconclusive()
+			rt.Fatalf("VERIF-INCONCLUSIVE: closers still running after 25 s")
+		}
+		// let the (non-graceful) notifier finish delivering what was queued
+		for d := time.Now().Add(5 * time.Second); time.Now().Before(d); {
+			n := w.agent.connectionStateNotifier
+			n.Lock()
+			idle := !n.runningConnectionStates && len(n.connectionStates) == 0
+			n.Unlock()
+			if idle {
+				break
+			}
+			time.Sleep(50 * time.Microsecond)
+		}
+		mu.Lock()
+		got := append([]ConnectionState{}, states...)
+		mu.Unlock()
+		desc := fmt.Sprintf("closers=%v gaps=%v teardownHeld=%v started=%v states=%v", graceful, gap, holdTeardown, started, got)
+		st.Record(vfHashStr(desc), nClosers >= 2 && holdTeardown, fmt.Sprintf("closers:%d", nClosers), fmt.Sprintf("teardown-held:%v", holdTeardown))
+		if nClosers >= 2 && holdTeardown && st.WantSample() {
+			st.Sample(func() string { return desc })
+		}
+		nClosed := 0
+		for _, s := range got {
+			if s == ConnectionStateClosed {
+				nClosed++
+			}
+		}
+		if nClosed != 1 {
+			st.Fail(rt, "C11/close/closed-state-delivered-"+fmt.Sprint(nClosed)+"-times", "the Closed state reached the handler %d time(s): %s", nClosed, desc)
+		}
+		if len(got) > 0 && got[len(got)-1] != ConnectionStateClosed {
+			st.Fail(rt, "C11/close/state-after-closed", "Closed is not the last state delivered: %s", desc)
 		}
 	})
 }
